@@ -50,7 +50,7 @@ var intrinsics = map[string]bool{
 	"(*sync/atomic.Value).Load": true, "(*sync/atomic.Value).Store": true,
 	"(*sync.Map).Load": true, "(*sync.Map).Store": true, "(*sync.Map).Delete": true, "(*sync.Map).LoadOrStore": true, "(*sync.Map).LoadAndDelete": true,
 	"errors.New": true, "fmt.Errorf": true, "fmt.Sprintf": true, "fmt.Sprint": true,
-	"math.Ceil": true, "math.Floor": true, "math.Max": true, "math.Min": true, "math.Abs": true, "math.Round": true, "math.Trunc": true,
+	"math.Sqrt": true, "math.Ceil": true, "math.Floor": true, "math.Max": true, "math.Min": true, "math.Abs": true, "math.Round": true, "math.Trunc": true,
 }
 
 var pureAllow = []string{
@@ -549,10 +549,18 @@ func (fr *frame) intrinsic(v *ssa.Call, res, name string, cc *ssa.CallCommon, st
 		fc.fact("", "(not (= %s 0))", res)
 	case name == "fmt.Sprintf", name == "fmt.Sprint":
 		// result unconstrained
+	case name == "math.Sqrt":
+		P.Declare("rsqrt", "(declare-fun rsqrt (Real) Real)\n(assert (forall ((x Real)) (! (>= (rsqrt x) 0.0) :pattern ((rsqrt x)))))")
+		def(fmt.Sprintf("(rsqrt %s)", arg(0)))
 	case name == "math.Ceil":
-		def(fmt.Sprintf("(to_real (- (to_int (- %s))))", arg(0)))
+		// ceil through an integer witness k with k-1 < x <= k (solvers handle this form far better than to_int)
+		k := fc.freshConst(fr.prefix+"ceil", "Int")
+		fc.fact("", "(and (< (- (to_real %s) 1.0) %s) (<= %s (to_real %s)))", k, arg(0), arg(0), k)
+		def(fmt.Sprintf("(to_real %s)", k))
 	case name == "math.Floor":
-		def(fmt.Sprintf("(to_real (to_int %s))", arg(0)))
+		k := fc.freshConst(fr.prefix+"floor", "Int")
+		fc.fact("", "(and (<= (to_real %s) %s) (< %s (+ (to_real %s) 1.0)))", k, arg(0), arg(0), k)
+		def(fmt.Sprintf("(to_real %s)", k))
 	case name == "math.Trunc":
 		P.Declare("trunc", "(define-fun trunc ((x Real)) Int (ite (>= x 0.0) (to_int x) (- (to_int (- x)))))")
 		def(fmt.Sprintf("(to_real (trunc %s))", arg(0)))
@@ -732,8 +740,15 @@ func (fr *frame) applyContract(ctr *FuncContract, callee *ssa.Function, cc *ssa.
 	fr.resultAssumeT(resName, resT, st)
 	env := fr.calleeEnv(ctr, callee, cc, argTerms, argTypes, resName, resT, pre, st)
 	for _, c := range ctr.Ensures {
-		g := env.tr(c.E)
-		fc.facts = append(fc.facts, Fact{Text: fmt.Sprintf("(assert (=> %s %s))", R, g.T), Tag: "post:" + calleeName + ":" + c.Label})
+		g := env.trAssume(c.E)
+		def := ""
+		if resName != "" {
+			def = resName
+			if _, isTup := resT.(*types.Tuple); isTup {
+				def = resName + "_r0"
+			}
+		}
+		fc.facts = append(fc.facts, Fact{Text: fmt.Sprintf("(assert (=> %s %s))", R, g), Tag: "post:" + calleeName + ":" + c.Label, Def: def})
 	}
 	if ctr.PureDef != nil && resName != "" {
 		g := env.tr(ctr.PureDef.E)
@@ -742,7 +757,7 @@ func (fr *frame) applyContract(ctr *FuncContract, callee *ssa.Function, cc *ssa.
 	// pure single-result functions are mathematical functions of their arguments
 	if ctr.Pure && !ctr.Trusted && callee != nil && callee.Blocks != nil && callee.Parent() == nil && resName != "" && callee.Signature.Results().Len() == 1 && len(callee.FreeVars) == 0 && !heapDependent(callee) {
 		name, _ := fc.pureFun(callee)
-		fc.fact("", "(=> %s (= %s (%s %s)))", R, resName, name, strings.Join(argTerms, " "))
+		fc.facts = append(fc.facts, Fact{Text: fmt.Sprintf("(assert (=> %s (= %s (%s %s))))", R, resName, name, strings.Join(argTerms, " ")), Tag: "pf"})
 	}
 }
 
@@ -1227,7 +1242,7 @@ func (fr *frame) assumeInvariants(h *ssa.BasicBlock, st *State) {
 	env := fr.invEnv(h, st, nil)
 	R := fr.reach[h]
 	for _, c := range fr.loopInvariants(h) {
-		g := env.tr(c.E)
-		fc.facts = append(fc.facts, Fact{Text: fmt.Sprintf("(assert (=> %s %s))", R, g.T), Tag: fmt.Sprintf("inv:%d:%s:%d", c.Loop, c.Label, c.Stage)})
+		g := env.trAssume(c.E)
+		fc.facts = append(fc.facts, Fact{Text: fmt.Sprintf("(assert (=> %s %s))", R, g), Tag: fmt.Sprintf("inv:%d:%s:%d", c.Loop, c.Label, c.Stage)})
 	}
 }
